@@ -9,7 +9,7 @@ use crate::tape::Tape;
 pub const RULE: &str = "unsigned/signed vint encoders for every width 1..8 and the default width (the unsigned ones through every implementation of the Vint trait — u64, u32, u16, u8 — that can hold the value), decoders on byte slices of length 0..9, \
 and the well-formed-id predicate, each compared with an independent codec on u128/i128. Exhaustive blocks (values < 2^23 quick / 2^28 thorough, \
 |v| < 2^22 / 2^27 signed, all slices of length <= 3, ids < 2^24), the boundary lattice (±2 around every 2^(7k), 2^(7k-1), 2^(8k), 2^56, 2^63, 2^64-1) \
-and proptest-generated random values/slices. Non-trivial: multi-byte encodings (value >= 2^7 or |v| >= 2^6), non-empty slices, ids >= 0x80; distinct by value (enumerations are distinct by construction).";
+and proptest-generated random values/slices; one zero-filled 4 GiB + 16 byte buffer gives slices of 2^32-8 .. 2^32+16 bytes for every vint length (the answer depends on the vint at the start alone). Non-trivial: multi-byte encodings (value >= 2^7 or |v| >= 2^6), non-empty slices, ids >= 0x80; distinct by value (enumerations are distinct by construction).";
 
 pub const ASSUMPTIONS: &[&str] = &[
     "as_signed_vint_with_length is called with widths 1..=8 only (as its callers do)",
